@@ -465,6 +465,7 @@ func main() {
 	extractDecisions(*repo, files)
 	extractRecover(*repo, files)
 	extractSinks(*repo, files)
+	extractLocks(*repo, files)
 	sort.Strings(fx.Unknown)
 	files["Unknown.lean"] = "-- GENERATED by /verif/extract from /repo; do not edit.\nnamespace Arca.Gen\n\n/-- constructs the extractor did not recognise -/\ndef unknown : List String := " +
 		leanStrList(fx.Unknown) + "\n\nend Arca.Gen\n"
